@@ -82,7 +82,7 @@ def gen_run(rng, mode, quick):
 def gen_ops(ctx):
     rng = ctx.rng
     quick = ctx.quick()
-    counts = {"d": 2000, "x": 400, "r": 600} if quick else {"d": 30000, "x": 6000, "r": 12000}
+    counts = {"d": 2000, "x": 400, "r": 600} if quick else {"d": 10000, "x": 2000, "r": 4000}
     ops = []
     runs = []
     order = [m for m, c in counts.items() for _ in range(c)]
@@ -226,8 +226,9 @@ def check_settled(run, info, bad, phase):
         fail("reservation-leak", f"acquiredMemory keeps {leak_unaccounted} bytes that no connection accounts for, no live buffer, all idle", F14)
     if info.get("acct", "ok") != "ok":
         if mode == "r":
+            # with restarts the only known way to break the accounting is the leak reported above (F14)
             if not leak_unaccounted and phase == "flush":
-                fail("accounting", f"acquiredMemory != sum over connections (transport:step:acquired:sum = {info['acct']})", F14)
+                fail("accounting", f"acquiredMemory != sum over connections (transport:step:acquired:sum = {info['acct']})")
         else:
             fail("accounting", f"acquiredMemory != sum over connections (transport:step:acquired:sum = {info['acct']})")
     if not (mode == "r" and phase == "settle"):
